@@ -172,3 +172,21 @@ def ref_defined(asts, dense, data, n=None):
     except (KeyError, IndexError, ValueError):
         return False
     return True
+
+
+def stamps_of(sc, n=None):
+    """time-stamps of the discrete sensor clock of a scenario (possibly faulty); perfect clock when absent or stale"""
+    n = sc['n'] if n is None else n
+    t = sc.get('times')
+    if isinstance(t, list) and len(t) >= n:
+        return t[:n]
+    return list(range(n))
+
+
+def add_clock(rng, sc):
+    """attach a (strictly increasing) faulty clock to a discrete scenario; values must not depend on it"""
+    from .. import world
+    if 'n' in sc:
+        sc['times'], sc['fired'] = world.faulty_clock(rng, sc['n'], kinds=[k for k in ('jitter_in', 'jitter_out', 'offset', 'float_stamps')
+                                                                          if rng.random() < 0.35])
+    return sc
